@@ -371,7 +371,8 @@ def check(col, prog, tier, profile, fixture=None):
             else:
                 col.violation("I2", key, b.loc(), "%s contains a checked arithmetic operation: it panics in debug builds at the signed minimum / all-ones" % b.path)
             consts_ = [c_ for c_ in crate.bodies if not c_.is_closure and c_.name in (ZERO_N, ONES_N) and c_.path.startswith("<%s as masks::IterMasks>" % ty)]
-            I = util.analyser(consts_)(b)
+            free_ = [f_ for f_ in crate.bodies if not f_.is_closure and f_.kind == "Fn" and f_.container is None and f_.vis != "pub" and not util.self_recursive(f_)]
+            I = util.analyser(consts_ + free_, features=("fncall",))(b)
             selfp = ("deref", ("param", 1, I.names.get(1)))
             x = ("param", 2, I.names.get(2))
             old = ("load", ("m0",), selfp)
@@ -422,6 +423,22 @@ def check(col, prog, tier, profile, fixture=None):
                         oks = v[1] == bop and other == x and step[0] == "call" and str(step[1]).endswith("::" + wop) and step[2][0] == old and step[2][1] == mk_int(1) and r[2][0] == old
                         why = tstr(v)
                     v_some.append(bool(oks))
+                if r[0] == "agg" and r[1][3] == "None" and not okn and not stores:
+                    # the terminal test made by a generic helper: PartialEq::eq(&current, &terminal) with terminal = zero() / ones()
+                    def _unref(v_):
+                        return v_[1][1] if isinstance(v_, tuple) and v_ and v_[0] == "ref" and v_[1][0] == "constval" else v_
+
+                    for f in st.facts:
+                        t_ = f[1]
+                        if f[0] in ("eq", "ne") and f[2] in (0, 1) and isinstance(t_, tuple) and t_ and t_[0] == "call" and str(t_[1]).endswith(("PartialEq::eq", "PartialEq::ne")):
+                            a_ = [_unref(y) for y in t_[2] if not (isinstance(y, tuple) and y and y[0] == "mem")]
+                            truth = (f[0] == "eq") == bool(f[2])
+                            equal = truth if str(t_[1]).endswith("::eq") else not truth
+                            if len(a_) == 2 and old in a_ and equal:
+                                k_ = a_[1] if a_[0] == old else a_[0]
+                                term_nm = ZERO_N if nm == "next_submask" else ONES_N
+                                is_term = (isinstance(k_, tuple) and k_ and k_[0] == "call" and str(k_[1]).endswith("IterMasks>::%s" % term_nm) and ("<%s as " % ty) in str(k_[1])) or (nm == "next_submask" and k_ == mk_int(0)) or (nm != "next_submask" and all_ones(k_))
+                                okn = okn or bool(is_term)
                 if r[0] == "agg" and r[1][3] == "None":
                     v_none.append(bool(okn))
             okn, oks = bool(v_none) and all(v_none), bool(v_some) and all(v_some)
